@@ -90,6 +90,11 @@ type SearchOpts struct {
 	Run *ev.Run
 	// Representatives per canonical state that are expanded (1 or 2).
 	Reps int
+	// Cold adds, for every state, a representative that is explored on a
+	// witness restarted (new Witness object over the same store) before every
+	// request: its verdicts must equal those of the warm representative, i.e.
+	// nothing the witness keeps in memory may influence an answer.
+	Cold bool
 	// Prelude requests are applied to every fresh environment before the
 	// path (e.g. to give another log a stored checkpoint); all must be accepted.
 	Prelude []Req
@@ -157,6 +162,11 @@ func Search(o SearchOpts) (int, int64) {
 		o.Reps = 1
 	}
 	cfg := Config{Store: o.Store, Signers: o.Signers, Logs: append([]LogCfg{o.Log}, o.Extra...)}
+	// On the single-connection SQL store a leaked transaction blocks every
+	// later call forever: calls run under a watchdog there (not when a custom
+	// DoFn drives the request through other layers).
+	cfg.Guard = o.Store == "sql" && o.DoFn == nil
+	var storeBlocked atomic.Bool
 	id := o.Log.ID()
 	states := map[string]*stateRec{"⊥": {key: "⊥", paths: [][]Req{{}}}}
 	order := []string{"⊥"}
@@ -182,11 +192,18 @@ func Search(o SearchOpts) (int, int64) {
 		}
 		for i, r := range path {
 			out := do(e, r)
+			if e.Blocked {
+				return e
+			}
 			if out.Class != OK {
 				ev.Internal("replay of path step %d (%s) was refused: %v", i, r.Label, out.Err)
 			}
 		}
-		st, ok := StateOf(o.Gen, e.Stored(id))
+		stored := e.Stored(id)
+		if e.Blocked {
+			return e
+		}
+		st, ok := StateOf(o.Gen, stored)
 		if !ok || st.Key() != want {
 			ev.Internal("replay of path reached %s, want %s", st.Key(), want)
 		}
@@ -211,6 +228,10 @@ func Search(o SearchOpts) (int, int64) {
 				jobs = append(jobs, job{rec, i})
 			}
 			rec.vecs = make([][]string, len(rec.paths))
+			if o.Cold {
+				jobs = append(jobs, job{rec, len(rec.paths)}) // rep index len(paths) = cold twin of representative 0
+				rec.vecs = make([][]string, len(rec.paths)+1)
+			}
 		}
 		ch := make(chan job)
 		var wg sync.WaitGroup
@@ -219,8 +240,21 @@ func Search(o SearchOpts) (int, int64) {
 			go func() {
 				defer wg.Done()
 				for j := range ch {
-					path := j.rec.paths[j.rep]
+					if storeBlocked.Load() {
+						continue
+					}
+					cold := j.rep == len(j.rec.paths)
+					path := j.rec.paths[0]
+					if !cold {
+						path = j.rec.paths[j.rep]
+					}
 					e := build(path, j.rec.key)
+					if e.Blocked {
+						if !storeBlocked.Swap(true) {
+							o.Run.Report("store-blocked after=replay", fmt.Sprintf("replaying the accepted path to state %s left the store blocked", j.rec.key), nil)
+						}
+						continue
+					}
 					st, _ := StateOf(o.Gen, e.Stored(id))
 					var reqs []Req
 					if o.AlphaFn != nil {
@@ -239,6 +273,12 @@ func Search(o SearchOpts) (int, int64) {
 							lc = &c
 						}
 						exp := Model(lc, st, r)
+						if cold {
+							e.Restart()
+							if o.SetupFn != nil {
+								o.SetupFn(e)
+							}
+						}
 						if o.PreStep != nil {
 							o.PreStep()
 						}
@@ -252,6 +292,13 @@ func Search(o SearchOpts) (int, int64) {
 						}
 						t1 := ClockNow()
 						after := e.Snap()
+						if e.Blocked {
+							if !storeBlocked.Swap(true) {
+								o.Run.Report("store-blocked after="+out.Class, fmt.Sprintf("in state %s, request %q (answered %s) - or the request before it - left the store blocked: the next call or read did not return within 60 s", st.Key(), r.Label, out.Class), nil)
+							}
+							vec = nil
+							break
+						}
 						stAfter, known := StateOf(o.Gen, []byte(after.ByID[id]))
 						if _, has := after.ByID[id]; !has {
 							stAfter, known = MState{}, true
@@ -295,7 +342,9 @@ func Search(o SearchOpts) (int, int64) {
 							before = e.Snap()
 						}
 					}
-					e.Close()
+					if !e.Blocked {
+						e.Close()
+					}
 					j.rec.vecs[j.rep] = vec
 				}
 			}()
@@ -312,11 +361,18 @@ func Search(o SearchOpts) (int, int64) {
 			rec := states[k]
 			for i := 1; i < len(rec.vecs); i++ {
 				a, b := rec.vecs[0], rec.vecs[i]
+				if a == nil || b == nil {
+					continue // cut short by a blocked store (reported)
+				}
 				if len(a) != len(b) {
 					ev.Internal("alphabet differs between representatives of state %s", k)
 				}
 				for x := range a {
 					if a[x] != b[x] {
+						if o.Cold && i == len(rec.vecs)-1 {
+							o.Run.Report("answer-depends-on-witness-memory:"+k, fmt.Sprintf("in state %s request #%d is answered %s by a witness that has processed the earlier requests and %s by one restarted over the same store", k, x, a[x], b[x]), nil)
+							break
+						}
 						o.Run.Report("canonical-form:"+k, fmt.Sprintf("two byte representatives of state %s answer request #%d differently: %s vs %s", k, x, a[x], b[x]), nil)
 						break
 					}
